@@ -1,4 +1,6 @@
 SPECIFICATION TSpec
+CONSTANTS
+  ExactKnown = FALSE
 INVARIANT RanksOK
 INVARIANT BoundsOK
 INVARIANT KnownOK
